@@ -163,8 +163,8 @@ var stubAssumptions = []string{
 }
 
 var cAssumptions = []string{
-	"C side: /repo/c/*.c (all but tests, dump.c and stack.c) and harness/cshim.c are compiled with clang-14 -O1 to LLVM IR and linked with llvm-link on every run; the IR is interpreted by engine/llir.go (byte-granular bounds-checked objects, use-after-free and double-free detection, indirect calls through the real vtables); clang's translation of C to IR at -O1 is trusted, the replay runs the natively compiled code under AddressSanitizer",
-	"C side stubs: malloc/calloc/realloc never fail; uninitialised memory reads as an arbitrary but fixed byte; strlen/strcmp/strncmp/strchr/strncpy/memcmp/bcmp/memcpy/memmove/memset by their ISO C meaning; zlib crc32 = the Go side's crc32 stub; compress2/uncompress2 = the zlib stub above (so deflate streams are byte-identical between the two sides in the model; natively each side runs its own zlib)",
+	"C side: /repo/c/*.c (all but tests and dump.c) and harness/cshim.c are compiled with clang-14 -O1 to LLVM IR and linked with llvm-link on every run; the IR is interpreted by engine/llir.go (byte-granular bounds-checked objects, use-after-free and double-free detection, indirect calls through the real vtables); clang's translation of C to IR at -O1 is trusted, the replay runs the natively compiled code under AddressSanitizer",
+	"C side stubs: malloc/calloc/realloc never fail; uninitialised memory reads as an arbitrary but fixed byte; strlen/strcmp/strncmp/strchr/strncpy/memcmp/bcmp/memcpy/memmove/memset by their ISO C meaning; zlib crc32 = the Go side's crc32 stub; open/close/read/pread/write/lseek/fstat/unlink/rename/mkstemp/opendir = the model filesystem of the Go side (same namespace, process identities, monitors); gettimeofday = logical clock; rand = successive distinct values; compress2/uncompress2 = the zlib stub above (so deflate streams are byte-identical between the two sides in the model; natively each side runs its own zlib)",
 	"C side: pointers are (object, offset) pairs and are concrete per path; a pointer is never forged from symbolic bytes; symbolic array indices are case split; floating point (compress bound estimate in block_writer_finish) only on concrete values",
 }
 
